@@ -98,6 +98,11 @@ type IfInfo struct {
 	If   *ssa.If
 	Atom Atom
 	Pol  bool
+	// Via is set for a virtual branch: the If tests a bool phi of its own block (a materialised `a || b`, a flag
+	// left by an inlined helper) and Atom is the non-constant value that flows in over predecessor Via — entering
+	// the block from Via, the branch is decided by Atom. Constant incoming values are handled by jump threading
+	// in Reach, so for the usual `x := a || b; if x` the edges of the If are reachable only from Via.
+	Via *ssa.BasicBlock
 }
 
 // Ifs lists the conditional branches of fn.
@@ -110,6 +115,25 @@ func Ifs(fn *ssa.Function) []IfInfo {
 		if i, ok := b.Instrs[len(b.Instrs)-1].(*ssa.If); ok {
 			a, pol := Decompose(i.Cond)
 			out = append(out, IfInfo{If: i, Atom: a, Pol: pol})
+			if ph, neg, th := threadable(b); th {
+				for k, pred := range b.Preds {
+					if k >= len(ph.Edges) {
+						break
+					}
+					v := ph.Edges[k]
+					if _, isC := v.(*ssa.Const); isC {
+						continue
+					}
+					if _, isPhi := v.(*ssa.Phi); isPhi {
+						continue
+					}
+					va, vpol := Decompose(v)
+					if neg {
+						vpol = !vpol
+					}
+					out = append(out, IfInfo{If: i, Atom: va, Pol: vpol, Via: pred})
+				}
+			}
 		}
 	}
 	return out
